@@ -61,6 +61,13 @@ def st_filter(draw, store, limit=None, allow_absent=True, max_conds=3):
                           min_size=1, max_size=max_conds, unique=True))
     if all(c in ("since", "until") for c in conds) and draw(st.booleans()):
         conds.append(draw(st.sampled_from(["kinds", "authors", "tag"])))
+    shape = draw(st.integers(0, 9))
+    if shape == 0:
+        conds = ["authors", "kinds"] + [c for c in conds if c in ("since", "until")]   # author+kind composite index
+    elif shape == 1:
+        conds = ["kinds", "tag"] + [c for c in conds if c in ("since", "until")]       # chained multi-index
+    elif shape == 2:
+        conds = ["authors", "tag", "tag2"][: draw(st.integers(2, 3))]
 
     def pick(present, absent, maxn=3):
         vals = []
